@@ -17,9 +17,11 @@ def main():
         if pat not in u.name or u.trusted:
             continue
         r = verify_unit(u, contracts)
-        print(f'== {u.name}: {r.status} {r.reason} paths={r.stats.get("paths")} normal={r.stats.get("normal_exits")} exc={r.stats.get("exc_exits")} solver={r.stats.get("solver_time",0):.2f}s wall={r.wall:.1f}s')
+        print(f'== {u.name}: {r.status} {r.reason} paths={r.stats.get("paths")} normal={r.stats.get("normal_exits")} exc={r.stats.get("exc_exits")} solver={r.stats.get("solver_time",0):.2f}s wall={r.wall:.1f}s obligations={len(r.obligations)} ok={sum(o.status=="discharged" for o in r.obligations.values())}')
         for k, ob in sorted(r.obligations.items()):
             flag = {'discharged': 'OK  ', 'failed': 'FAIL', 'unknown': '??  '}[ob.status]
+            if ob.status == 'discharged' and ob.witnessed and '-v' not in sys.argv:
+                continue
             print(f'   {flag} {k}  paths={ob.paths} {"" if ob.witnessed else "VACUOUS"}')
             for f in ob.failed[:2]:
                 print('        path:', f['path'][-8:]); print('        model:', {k: v for k, v in list(f['model'].items())[:14]}); print('        info:', f['info'])
